@@ -16,7 +16,7 @@ mod refspec;
 use fbh::gal::*;
 use fbh::mapmodel::*;
 use fbh::prng::Rng;
-use fbh::report::{guarded, Report};
+use fbh::report::{crumb, guarded, Report};
 use fbh::Ctx;
 use dukenest::nest::Nests;
 use jar::*;
@@ -117,6 +117,8 @@ const CUSTOM: [&str; 5] = ["Custom", "Xyz", "Named", "K", "B"];
 const DST_SIMPLE: [&str; 12] = ["X", "Y", "Zed", "C_7", "C_45", "C_123", "M", "Mapped", "p", "π", "C_9x", "C_"];
 const DST_PKGS: [&str; 4] = ["", "x/", "net/minecraft/unmapped/", "m/"];
 const MEMBER: [&str; 8] = ["a", "b", "m_1", "f_2", "run", "<init>", "get", "x"];
+/// enclosing methods that have no entry in any mapping set
+const UNMAPPED_METHOD: [&str; 6] = ["<init>", "<clinit>", "lambda$run$0", "lambda$new$1", "access$000", "λ"];
 const ACCESS: [u16; 8] = [0, 0x0001, 0x0008, 0x0019, 0x1000, 0x4010, 0x0608, 0x761F];
 /// inner names made of / starting with / continuing with numeric characters that are NOT ASCII digits
 /// (Arabic-Indic, fullwidth, superscript, circled, Roman numeral): `char::is_numeric` is true for them,
@@ -128,7 +130,9 @@ const NUM_DST: [&str; 6] = ["C_٤٢", "C_１２", "C_1²", "C_12３", "C_٣", "C
 #[derive(Clone, Copy, PartialEq, Debug)]
 enum Flavor { Valid, NoDst, Collide, Weird, Cyclic }
 
-struct World { m: MMappings, t: MTable, j: Vec<JSpec>, flavor: Flavor, via_text: bool }
+struct World { m: MMappings, t: MTable, j: Vec<JSpec>, flavor: Flavor, via_text: bool,
+	/// too large for a correspondence case (the model walks association lists): judged by the oracle only
+	big: bool }
 
 /// number of nests listed BEFORE the nest of their own enclosing class (an order in which a
 /// single pass over the table has not seen the enclosing class's translation yet)
@@ -220,14 +224,23 @@ fn gen_world(rng: &mut Rng, flavor: Flavor, via_text: bool) -> World {
 			kind = ascii_kind(&inner);
 		}
 		if flavor == Flavor::Weird && rng.chance(1, 4) {
-			inner = cps_str(*rng.pick(&["+1", "-1", "0", "99999999999", "2147483647", "2147483648", "1x", "x1", "", "a/b", "12", "00", "+٣", "٠", "１"][..]));
+			inner = cps_str(*rng.pick(&["+1", "-1", "0", "99999999999", "2147483647", "2147483648", "1x", "x1", "", "a/b", "12", "00", "+٣", "٠", "１", "01", "+0", "-0", "4294967295", "+2147483647", "00000000000000000000002147483647", "00000000000000000000002147483648", " 1", "1_0", "+", "-"][..]));
 			kind = *rng.pick(&[INNER, LOCAL, ANON][..]);
 		}
 		// enclosing method: one the enclosing class really has in M, or any
 		let meth = if kind == INNER && rng.chance(3, 4) { None } else if rng.chance(1, 5) { None } else {
 			let host = m.classes.iter().find(|c| c.names[0].as_ref() == Some(&encl));
 			match host { Some(h) if !h.methods.is_empty() && rng.chance(3, 4) => { let me = rng.pick(&h.methods[..]); Some((me.names[0].clone().unwrap(), me.desc.clone())) }
-				_ => Some((cps_str(*rng.pick(&MEMBER[..])), if flavor == Flavor::Weird && rng.chance(1, 5) { cps_str("(LA)V") } else { gen_method_desc(rng, &u) })) }
+				_ => {
+					// a method the mappings know nothing about (constructor, static initialiser, lambda body, accessor):
+					// its name must be kept and its descriptor still rewritten through the class map
+					let name = if rng.chance(1, 2) { cps_str(*rng.pick(&UNMAPPED_METHOD[..])) } else { cps_str(*rng.pick(&MEMBER[..])) };
+					let desc = if flavor == Flavor::Weird && rng.chance(1, 5) { cps_str("(LA)V") } else if rng.chance(1, 2) {
+						// certainly mentions a class of the universe (most of them have a target name)
+						let mut d = cps_str("(L"); d.extend(rng.pick(&u[..]).iter()); d.extend(cps_str(";I[[L")); d.extend(rng.pick(&u[..]).iter()); d.extend(cps_str(";)V")); d
+					} else { gen_method_desc(rng, &u) };
+					Some((name, desc))
+				} }
 		};
 		t.push(MNest { kind, class: cls, encl, meth, inner, access: *rng.pick(&ACCESS[..]) });
 		prev_in_table = Some(i);
@@ -239,6 +252,12 @@ fn gen_world(rng: &mut Rng, flavor: Flavor, via_text: bool) -> World {
 	rng.shuffle(&mut t);
 	if rng.chance(1, 4) { let ix = index(&t); let d: Vec<usize> = t.iter().map(|n| depth(&ix, &n.class)).collect(); let mut order: Vec<usize> = (0..t.len()).collect(); order.sort_by(|a, b| d[*b].cmp(&d[*a])); t = order.iter().map(|&i| t[i].clone()).collect(); }
 
+	// a target name that is itself the name of a listed class (undo turns its `$` into `__`: it looks the target
+	// name up in the table, nester_run.rs `nests.all.contains_key(&dst)`)
+	if !t.is_empty() && rng.chance(1, 8) {
+		let k = rng.pick(&t[..]).class.clone();
+		if !dsts.contains(&k) { if let Some(c) = { let n = m.classes.len(); if n == 0 { None } else { let i = rng.below(n); m.classes.get_mut(i) } } { c.names[1] = Some(k); } }
+	}
 	if flavor == Flavor::Collide && !t.is_empty() {
 		// a class of M that is not listed but carries the very name a listed class is renamed to
 		let ix = index(&t);
@@ -280,7 +299,7 @@ fn gen_world(rng: &mut Rng, flavor: Flavor, via_text: bool) -> World {
 		for n in &mut t { n.kind = ascii_kind(&n.inner); }
 	}
 	let j = gen_jar(rng, &u, &m, &t, flavor);
-	World { m, t, j, flavor, via_text }
+	World { m, t, j, flavor, via_text, big: false }
 }
 
 fn mk_class(name: &str, methods: &[(&str, &str)]) -> JSpec {
@@ -304,33 +323,51 @@ fn fixed_worlds() -> Vec<(&'static str, World)> {
 	let chain_m = mk_mappings(&[("a", "pkg/Outer", &[("f", "Lc;")], &[("m", "(Lb;)[Lc;"), ("k", "()Ld;")]), ("b", "pkg/Middle", &[("g", "La;")], &[]), ("c", "pkg/Deep", &[], &[("<init>", "(Lc;Lb;La;)V")]), ("d", "pkg/C_5", &[], &[])]);
 	let chain_j = vec![mk_class("a", &[("m", "(Lb;)[Lc;")]), mk_class("b", &[]), mk_class("c", &[("run", "()V")]), mk_class("d", &[])];
 	for via_text in [false, true] {
-		v.push(("fixed-inner-most-first", World { m: chain_m.clone(), j: chain_j.clone(), flavor: Flavor::Valid, via_text,
+		v.push(("fixed-inner-most-first", World { m: chain_m.clone(), j: chain_j.clone(), flavor: Flavor::Valid, via_text, big: false,
 			t: vec![mk_nest(INNER, "c", "b", None, "C", 1), mk_nest(INNER, "b", "a", None, "B", 9)] }));
-		v.push(("fixed-inner-most-first", World { m: chain_m.clone(), j: chain_j.clone(), flavor: Flavor::Valid, via_text,
+		v.push(("fixed-inner-most-first", World { m: chain_m.clone(), j: chain_j.clone(), flavor: Flavor::Valid, via_text, big: false,
 			t: vec![mk_nest(ANON, "d", "c", Some(("run", "()V")), "1", 0), mk_nest(INNER, "c", "b", None, "C", 1), mk_nest(INNER, "b", "a", None, "B", 9)] }));
-		v.push(("fixed-inner-most-first", World { m: chain_m.clone(), j: chain_j.clone(), flavor: Flavor::Valid, via_text,
+		v.push(("fixed-inner-most-first", World { m: chain_m.clone(), j: chain_j.clone(), flavor: Flavor::Valid, via_text, big: false,
 			t: vec![mk_nest(INNER, "b", "a", None, "B", 9), mk_nest(ANON, "d", "c", Some(("run", "()V")), "1", 0), mk_nest(INNER, "c", "b", None, "C", 1)] }));
 	}
 	// acyclic table, well-formed injective mappings, cyclic image (theorem C14_map_nests_can_create_cycle)
-	v.push(("fixed-cyclic-image", World { m: mk_mappings(&[("c1", "P__Q", &[], &[]), ("c2", "P", &[], &[])]), j: vec![mk_class("c1", &[]), mk_class("c2", &[]), mk_class("Outer", &[])], flavor: Flavor::Cyclic, via_text: false,
+	v.push(("fixed-cyclic-image", World { m: mk_mappings(&[("c1", "P__Q", &[], &[]), ("c2", "P", &[], &[])]), j: vec![mk_class("c1", &[]), mk_class("c2", &[]), mk_class("Outer", &[])], flavor: Flavor::Cyclic, via_text: false, big: false,
 		t: vec![mk_nest(INNER, "c1", "Outer", None, "I", 1), mk_nest(INNER, "c2", "c1", None, "J", 1)] }));
 	// cyclic tables
-	v.push(("fixed-cyclic", World { m: mk_mappings(&[("A", "X", &[], &[])]), j: vec![mk_class("A", &[]), mk_class("B", &[])], flavor: Flavor::Cyclic, via_text: true,
+	v.push(("fixed-cyclic", World { m: mk_mappings(&[("A", "X", &[], &[])]), j: vec![mk_class("A", &[]), mk_class("B", &[])], flavor: Flavor::Cyclic, via_text: true, big: false,
 		t: vec![mk_nest(INNER, "A", "B", None, "A", 0), mk_nest(INNER, "B", "A", None, "B", 0)] }));
-	v.push(("fixed-cyclic", World { m: mk_mappings(&[("A", "X", &[("f", "LA;")], &[])]), j: vec![mk_class("A", &[])], flavor: Flavor::Cyclic, via_text: false,
+	v.push(("fixed-cyclic", World { m: mk_mappings(&[("A", "X", &[("f", "LA;")], &[])]), j: vec![mk_class("A", &[])], flavor: Flavor::Cyclic, via_text: false, big: false,
 		t: vec![mk_nest(INNER, "A", "A", None, "A", 0)] }));
 	// the order-dependent filter (theorem C14_filter_order_dependent): jar {Y}; X in Z, Y in X
 	for rev in [false, true] {
 		let mut t = vec![mk_nest(INNER, "X", "Z", None, "X", 1), mk_nest(INNER, "Y", "X", None, "Y", 1)];
 		if rev { t.reverse(); }
-		v.push(("fixed-order", World { m: mk_mappings(&[("X", "x/Ex", &[], &[]), ("Y", "x/Why", &[("f", "LX;")], &[])]), j: vec![mk_class("Y", &[])], flavor: Flavor::Valid, via_text: false, t }));
+		v.push(("fixed-order", World { m: mk_mappings(&[("X", "x/Ex", &[], &[]), ("Y", "x/Why", &[("f", "LX;")], &[])]), j: vec![mk_class("Y", &[])], flavor: Flavor::Valid, via_text: false, big: false, t }));
 	}
 	// numeric characters that are not ASCII digits, through the text reader
 	v.push(("fixed-numerics", World { m: mk_mappings(&[("a", "pkg/Outer", &[("f", "Lc;"), ("g", "Ld;"), ("h", "Le;")], &[("m", "()V")]), ("c", "pkg/C_12", &[], &[]), ("d", "pkg/Dee", &[], &[]), ("e", "pkg/C_٤٢", &[], &[]), ("g", "pkg/C_7", &[], &[])]),
-		j: vec![mk_class("a", &[("m", "()V")]), mk_class("c", &[]), mk_class("d", &[]), mk_class("e", &[]), mk_class("g", &[])], flavor: Flavor::Valid, via_text: true,
+		j: vec![mk_class("a", &[("m", "()V")]), mk_class("c", &[]), mk_class("d", &[]), mk_class("e", &[]), mk_class("g", &[])], flavor: Flavor::Valid, via_text: true, big: false,
 		t: vec![mk_nest(INNER, "c", "a", None, "٤٢", 1), mk_nest(LOCAL, "d", "a", Some(("m", "()V")), "1٣", 0), mk_nest(INNER, "e", "a", None, "٣D", 8), mk_nest(ANON, "g", "a", None, "7", 0)] }));
+	// enclosing methods WITHOUT a mapping whose descriptors mention renamed classes (`<init>`, a lambda body, `<clinit>`),
+	// beside one that has a mapping: names kept / mapped, descriptors always rewritten
+	for via_text in [false, true] {
+		let mut m = mk_mappings(&[("o", "pkg/O", &[], &[("m", "(Lp;)V")]), ("p", "q/Renamed", &[], &[]), ("c", "pkg/C_4", &[], &[]), ("d", "pkg/Dee", &[], &[]), ("e", "pkg/Eee", &[], &[]), ("g", "pkg/Gee", &[], &[])]);
+		m.classes[0].methods[0].names[1] = Some(cps_str("renamed"));
+		v.push(("fixed-unmapped-method", World { m, flavor: Flavor::Valid, via_text, big: false,
+			j: vec![mk_class("o", &[("<init>", "(Lp;I)V"), ("lambda$run$0", "(Lp;[Lp;)Lp;"), ("m", "(Lp;)V"), ("<clinit>", "()V")]), mk_class("p", &[]), mk_class("c", &[]), mk_class("d", &[]), mk_class("e", &[]), mk_class("g", &[])],
+			t: vec![mk_nest(ANON, "c", "o", Some(("<init>", "(Lp;I)V")), "1", 0), mk_nest(LOCAL, "d", "o", Some(("lambda$run$0", "(Lp;[Lp;)Lp;")), "1Dee", 0),
+				mk_nest(ANON, "e", "o", Some(("m", "(Lp;)V")), "2", 0), mk_nest(ANON, "g", "o", Some(("<clinit>", "()V")), "3", 8)] }));
+	}
+	// target names that can not be split at their last `__`: the enclosing part would end in `/`, the inner part start with `/`
+	for bad in ["x/__y", "x__/y", "__y", "x__"] {
+		v.push(("fixed-bad-split", World { m: mk_mappings(&[("a", "pkg/Outer", &[], &[]), ("b", bad, &[("f", "La;")], &[])]), flavor: Flavor::Weird, via_text: false, big: false,
+			j: vec![mk_class("a", &[]), mk_class("b", &[])], t: vec![mk_nest(INNER, "b", "a", None, "b", 1)] }));
+	}
+	// a TARGET name that is the name of a listed class: undo looks it up in the table and turns `$` into `__`
+	v.push(("fixed-undo-target-is-listed", World { m: mk_mappings(&[("u", "Host$Inner", &[("f", "LHost$Inner;")], &[]), ("Host$Inner", "named/HI", &[], &[]), ("Host", "named/Host", &[], &[])]), flavor: Flavor::Valid, via_text: false, big: false,
+		j: vec![mk_class("u", &[]), mk_class("Host$Inner", &[]), mk_class("Host", &[])], t: vec![mk_nest(INNER, "Host$Inner", "Host", None, "Inner", 1)] }));
 	// an anonymous class mapped to C_<fullwidth digit>: construct_inner_name_from_anonymous_number must refuse
-	v.push(("fixed-numerics", World { m: mk_mappings(&[("a", "pkg/Outer", &[], &[]), ("g", "pkg/C_７", &[], &[])]), j: vec![mk_class("a", &[]), mk_class("g", &[])], flavor: Flavor::Valid, via_text: true,
+	v.push(("fixed-numerics", World { m: mk_mappings(&[("a", "pkg/Outer", &[], &[]), ("g", "pkg/C_７", &[], &[])]), j: vec![mk_class("a", &[]), mk_class("g", &[])], flavor: Flavor::Valid, via_text: true, big: false,
 		t: vec![mk_nest(ANON, "g", "a", None, "7", 0)] }));
 	v
 }
@@ -442,7 +479,7 @@ fn through_world(r: &mut Report, w: &World, n: &Nests<NA>, stream: &str) -> anyh
 			if collisions > 0 { r.count("map_nests_target_collision(hypothesis violated)"); }
 			r.count(if got.is_some() { "map_nests_ok" } else { "map_nests_err" });
 			if let Some(g) = got { for n in g { if n.class.windows(2).any(|p| p == ['_' as u32, '_' as u32]) { r.count("image_already_nested_C__D"); break; } } }
-			r.case(stream, format!("CMapNests {} {} {}", g_table(t), g_mappings(m), gres(got.as_ref().map(g_table))));
+			if !w.big { r.case(stream, format!("CMapNests {} {} {}", g_table(t), g_mappings(m), gres(got.as_ref().map(g_table)))); }
 		}
 	}
 	// an acyclic table can have a cyclic image (already nested target names override the enclosing class):
@@ -461,7 +498,7 @@ fn through_world(r: &mut Report, w: &World, n: &Nests<NA>, stream: &str) -> anyh
 	}
 	r.count(match &got_apply { Err(_) => "apply_panic", Ok(None) => "apply_err", Ok(Some(_)) => "apply_ok" });
 	if m.classes.iter().any(|c| c.names[1].is_none()) { r.count("apply_with_class_without_target_name"); }
-	r.case(stream, format!("CApply {} {} {}", g_table(t), g_mappings(m), g_outcome(&got_apply)));
+	if !w.big { r.case(stream, format!("CApply {} {} {}", g_table(t), g_mappings(m), g_outcome(&got_apply))); }
 
 	// ---- undo, on the applied mappings (the inverse law) and on the original ones
 	let inj = injective(m, t);
@@ -490,7 +527,7 @@ fn through_world(r: &mut Report, w: &World, n: &Nests<NA>, stream: &str) -> anyh
 			r.count("undo_apply_not_checked(translation not injective: hypothesis violated)");
 			if let Ok(Some(m2)) = &got_undo { if source_view(m2) != source_view(m) { r.count("undo_apply_differs_when_not_injective"); } }
 		}
-		r.case(stream, format!("CUndo {} {} {}", g_table(t), g_mappings(m1), g_outcome(&got_undo)));
+		if !w.big { r.case(stream, format!("CUndo {} {} {}", g_table(t), g_mappings(m1), g_outcome(&got_undo))); }
 	}
 	let got_undo0 = impl_undo(m, n)?;
 	if expect_of(&got_undo0) != ref_undo(m, t) {
@@ -498,7 +535,7 @@ fn through_world(r: &mut Report, w: &World, n: &Nests<NA>, stream: &str) -> anyh
 		r.violation(what.clone(), replay_text(&what, w, ""));
 	}
 	if !acyclic(t) { r.count(match &got_undo0 { Ok(None) => "undo_err_on_cyclic_table", _ => "undo_not_err_on_cyclic_table" }); }
-	r.case(stream, format!("CUndo {} {} {}", g_table(t), g_mappings(m), g_outcome(&got_undo0)));
+	if !w.big { r.case(stream, format!("CUndo {} {} {}", g_table(t), g_mappings(m), g_outcome(&got_undo0))); }
 	Ok(nontrivial)
 }
 
@@ -538,7 +575,7 @@ fn through_jar(r: &mut Report, w: &World, nests: &Nests<NA>, remap: bool, stream
 			else if bad_encl_desc { r.count("jar_err(malformed enclosing method descriptor)"); }
 			else if !j.is_empty() { let what = "nest_jar returned Err on a jar with classes".to_string(); r.violation(what.clone(), jar_replay(&what, w, remap, "")); }
 			if j.is_empty() { r.count("jar_err(no classes)"); }
-			r.case(&stream, format!("CJar {} {} {} Err", gbool(remap), g_jar(j), g_table(t)));
+			if !w.big { r.case(&stream, format!("CJar {} {} {} Err", gbool(remap), g_jar(j), g_table(t))); }
 			return;
 		}
 		Ok(Some(o)) => o,
@@ -644,7 +681,7 @@ fn through_jar(r: &mut Report, w: &World, nests: &Nests<NA>, remap: bool, stream
 		}
 	}
 	if model_ok && out.len() == expected.len() {
-		r.case(&stream, format!("CJar {} {} {} (Ok {})", gbool(remap), g_jar(j), g_table(t), glist(g_out)));
+		if !w.big { r.case(&stream, format!("CJar {} {} {} (Ok {})", gbool(remap), g_jar(j), g_table(t), glist(g_out))); }
 	}
 }
 
@@ -663,7 +700,7 @@ fn gen_text(rng: &mut Rng, w: &World, malformed: bool) -> S {
 			3 => { let p = l.iter().rposition(|&c| c == 9).unwrap(); l.truncate(p + 1); l.extend(cps_str(*rng.pick(&["65536", "0x10000", "-1", "", "0x", "+", "1 ", "0b2", "0xg", "+0x1"][..]))); }
 			4 => { let mut v = cps_str("a.b\t"); v.extend(l.iter().skip_while(|&&c| c != 9).skip(1)); *l = v; }   // invalid class name
 			5 => { *l = cps_str("A\tB\tm<\t()V\tC\t0"); }                           // invalid method name
-			6 => { *l = vec![]; }                                                   // empty line
+			6 => { *l = if rng.chance(1, 2) { vec![] } else { cps_str(*rng.pick(&["A\t\t\t\tB\t1", "A\tB\t\t\t\t1", "A\tB\tm\t()V\t\t0", "A\t\tm\t()V\t1\t0"][..])) }; }   // empty line, empty enclosing class, empty inner name
 			_ => { *l = cps_str("A\tB\t\t\tx/\t0"); }                              // invalid inner name
 		}
 	}
@@ -767,6 +804,155 @@ fn cycle_probe(r: &mut Report, ctx: &Ctx) -> bool {
 	all_ok
 }
 
+// ---------------------------------------------------------------------------------------------
+// round 4: crumbs, chains at the boundary of the depth test, the anonymous rule on boundary strings,
+// the remapper's answers on array / unlisted class names, entries that are not named <class>.class
+
+/// what is written down before a world is handed to the implementation: if the harness process dies there
+/// (unbounded recursion over the chain of enclosing classes, abort, endless loop), `check` reports this text
+fn world_crumb(w: &World, stream: &str, label: &str) -> String {
+	let what = format!("(stream {stream}{label}) the harness process died while this world was handed to dukenest (Nests::read, remap_nests, apply_nests_to_mappings, undo_nests_to_mappings, nest_jar)");
+	if w.big {
+		return format!("property C14\nwhat: {what}\nnests table: {} entries, first and last:\n{}  ...\n{}jar: {} classes; mappings: {} classes\n", w.t.len(), show_table(&w.t[..2.min(w.t.len())].to_vec()), show_table(&w.t[w.t.len().saturating_sub(2)..].to_vec()), w.j.len(), w.m.classes.len());
+	}
+	let mut extra = String::from("jar classes (entry order):\n");
+	for c in &w.j { extra.push_str(&format!("  class {} methods {:?}\n", show(&c.name), c.methods.iter().map(|m| format!("{}{}", show(&m.name), show(&m.desc))).collect::<Vec<_>>())); }
+	extra.push_str(&format!("Gallina: jar = {}\n", g_jar(&w.j)));
+	replay_text(&what, w, &extra)
+}
+
+/// ONE chain k/C0 <- k/C1 <- ... <- k/C{n-1} (C0 in k/Outer): the chain passes exactly as many nests as the
+/// table has, the boundary of the test `depth > len` of fix c9cdfec (it must not fire); `cycle` closes the
+/// chain (C0 in C{n-1}: it must fire).  order 0 = enclosing classes first, 1 = inner-most first, 2 = shuffled.
+fn chain_world(rng: &mut Rng, n: usize, cycle: bool, order: u8, with_jar: bool) -> World {
+	let name = |i: usize| cps_str(&format!("k/C{i}"));
+	let mut t: MTable = (0..n).map(|i| MNest { kind: INNER, class: name(i), encl: if i == 0 { if cycle { name(n - 1) } else { cps_str("k/Outer") } } else { name(i - 1) }, meth: None, inner: cps_str(&format!("I{i}")), access: 1 }).collect();
+	match order { 0 => {}, 1 => t.reverse(), _ => rng.shuffle(&mut t) }
+	let mut desc = cps_str("(L"); desc.extend(name(n - 1)); desc.extend(cps_str(";)L")); desc.extend(name(0)); desc.push(';' as u32);
+	let classes = (0..n).map(|i| MClass { names: vec![Some(name(i)), Some(cps_str(&format!("m/M{i}")))], doc: None, fields: vec![],
+		methods: if i == 0 || i + 1 == n { vec![MMeth { desc: desc.clone(), names: vec![Some(cps_str("m")), Some(cps_str("n"))], doc: None, params: vec![] }] } else { vec![] } }).collect();
+	let m = MMappings { ns: vec![cps_str("official"), cps_str("named")], doc: None, classes };
+	let j = if with_jar { (0..n).map(|i| mk_class(&format!("k/C{i}"), if i == 0 { &[("m", "()V")][..] } else { &[][..] })).collect() } else { vec![] };
+	World { m, t, j, flavor: if cycle { Flavor::Cyclic } else { Flavor::Valid }, via_text: false, big: n > 48 }
+}
+
+/// inner names around every edge of `parse::<i32>() >= 1`
+const ANON_INNER: [&str; 44] = ["0", "00", "01", "1", "7", "12", "007", "+1", "+01", "-1", "-0", "+0", "+", "-", "++1", "+-1", "-+1", "1+", "1-",
+	"2147483647", "2147483648", "2147483646", "4294967295", "4294967296", "4294967297", "+2147483647", "+2147483648", "-2147483648", "-2147483649",
+	"00000000000000000000002147483647", "00000000000000000000002147483648", "99999999999999999999999999", "", " 1", "1 ", "1_0", "1.0", "1e3", "0x1",
+	"٤٢", "１", "1٣", "²", "١"];
+
+/// the anonymous rule alone: jar {A, B}, B listed as anonymous in A with the given inner name
+fn through_anon(r: &mut Report, inner: &S) {
+	let w = World { m: mk_mappings(&[("A", "x/Outer", &[], &[("m", "()V")]), ("B", "x/Bee", &[], &[])]), j: vec![mk_class("A", &[("m", "()V")]), mk_class("B", &[])], flavor: Flavor::Weird, via_text: false, big: false,
+		t: vec![MNest { kind: ANON, class: cps_str("B"), encl: cps_str("A"), meth: Some((cps_str("m"), cps_str("()V"))), inner: inner.clone(), access: 0 }] };
+	crumb(&world_crumb(&w, "anon-index", ""));
+	let nests: Nests<NA> = to_nests(&w.t);
+	through_jar(r, &w, &nests, true, "anon-index");
+	through_jar(r, &w, &nests, false, "anon-index");
+	match impl_nest_jar(false, &w.j, &[], nests) {
+		Ok(Some(out)) => {
+			let nested = out.iter().find_map(|(name, e)| match e { OutEntry::Class(b) if name == "B.class" => raw::parse(b).and_then(|rc| facts_from_raw(&rc)).ok(), _ => None })
+				.map(|f| f.inner_classes.map_or(false, |v| !v.is_empty()));
+			match nested {
+				Some(nested) => {
+					let want = anon_ok(inner);
+					if nested != want {
+						let what = format!("anonymous class with inner name {:?}: nest_jar {} it, the rule (a decimal number >= 1 that fits an i32, optional `+`) says it {}", show(inner), if nested { "nested" } else { "did not nest" }, if want { "applies" } else { "does not apply" });
+						r.violation(what.clone(), jar_replay(&what, &w, false, ""));
+					}
+					r.count(if nested { "anon_index_applies" } else { "anon_index_rejected" });
+					r.case("anon-index", format!("CAnon {} {}", gstr(inner), gbool(nested)));
+				}
+				None => { let what = format!("class B missing from the output of nest_jar for anonymous inner name {:?}", show(inner)); r.violation(what.clone(), jar_replay(&what, &w, false, "")); }
+			}
+		}
+		other => { let what = format!("nest_jar failed on the two-class jar for anonymous inner name {:?}: {:?}", show(inner), other.map(|o| o.is_some())); r.violation(what.clone(), jar_replay(&what, &w, false, "")); }
+	}
+}
+
+/// The remapper nest_jar hands to dukebox::remap, observed from outside: a probe class whose method casts to
+/// every asked class name (object names, arrays of them, arrays of primitives, classes the table does not
+/// list); after nest_jar(remap = true) the operands are read back.  Oracle: Enclosing$Inner through the
+/// applicable entries (ref_tr over ref_nesting), inside the `L…;` of array names.
+fn through_any_class(r: &mut Report, w: &World, nests: &Nests<NA>, stream: &str) {
+	let probe = cps_str("zz/Probe");
+	if w.j.is_empty() || w.j.iter().any(|c| c.name == probe) || w.t.iter().any(|n| n.class == probe || n.encl == probe) { return; }
+	let mut names: Vec<S> = vec![];
+	for c in w.j.iter().map(|c| &c.name).chain(w.t.iter().map(|n| &n.class)).chain(w.t.iter().map(|n| &n.encl)) {
+		if !names.contains(c) && !c.is_empty() && c.iter().all(|&x| x != ';' as u32 && x != '[' as u32 && x != '.' as u32 && x > 32 && !(0xD800..0xE000).contains(&x)) { names.push(c.clone()); }
+	}
+	names.truncate(7);
+	names.push(cps_str("java/lang/Object")); names.push(cps_str("not/Listed$1"));
+	let mut asks: Vec<S> = vec![];
+	for (i, c) in names.iter().enumerate() {
+		asks.push(c.clone());
+		let mut a = cps_str(if i % 2 == 0 { "[L" } else { "[[[L" }); a.extend(c); a.push(';' as u32); asks.push(a);
+	}
+	for p in ["[I", "[[J", "[Z", "[[[D"] { asks.push(cps_str(p)); }
+	let mut code = vec![];
+	for a in &asks { code.push(JInsn::AConstNull); code.push(JInsn::CheckCast(a.clone())); code.push(JInsn::Pop); }
+	code.push(JInsn::Return);
+	let mut j = w.j.clone();
+	j.push(JSpec { major: 52, access: 0x0021, name: probe.clone(), super_class: Some(cps_str(OBJECT)), interfaces: vec![], fields: vec![], methods: vec![JMethod { access: 0x0009, name: cps_str("p"), desc: cps_str("()V"), code: Some(code), exceptions: vec![] }], inner: None, encl: None });
+	let Ok(Some(out)) = impl_nest_jar(true, &j, &[], nests.clone()) else { r.count("any_class_probe_not_run(nest_jar failed)"); return };
+	let Some(facts) = out.iter().find_map(|(name, e)| match e { OutEntry::Class(b) if name == "zz/Probe.class" => raw::parse(b).and_then(|rc| facts_from_raw(&rc)).ok(), _ => None }) else {
+		let what = "the unlisted class zz/Probe is missing from the output of nest_jar (or unparsable)".to_string(); r.violation(what.clone(), jar_replay(&what, w, true, "")); return };
+	let answers: Vec<S> = facts.methods.iter().flat_map(|m| m.code.iter()).flat_map(|c| c.insns.iter()).filter_map(|i| match (&i.arg, i.op) { (fbh::classfile::facts::OperandG::Class(c), "checkcast") => Some(c.code_points()), _ => None }).collect();
+	let view = jar_view(&j);
+	let rn = ref_nesting(&view, &w.t);
+	if !acyclic(&rn.applied) { return; }
+	let fix = index(&rn.applied);
+	let f = |c: &S| ref_tr(&fix, c).expect("acyclic");
+	let want: Vec<S> = asks.iter().map(|a| if a.first() == Some(&('[' as u32)) { ref_desc(&f, a).unwrap_or_else(|| a.clone()) } else { f(a) }).collect();
+	if answers != want {
+		let diff: Vec<String> = asks.iter().zip(want.iter()).zip(answers.iter().chain(std::iter::repeat(&vec![]))).filter(|((_, w), g)| w != g).map(|((a, w), g)| format!("{} -> {} (expected {})", show(a), show(g), show(w))).collect();
+		let what = format!("the remapper nest_jar hands to dukebox::remap does not answer Enclosing$Inner for every class name: {}", diff.join("; "));
+		r.violation(what.clone(), jar_replay(&what, w, true, &format!("\nprobe class zz/Probe casts to: {}\n", asks.iter().map(|a| show(a)).collect::<Vec<_>>().join(", "))));
+	}
+	r.count("any_class_probe(checkcast operands read back)");
+	if answers.iter().zip(&asks).any(|(a, q)| a != q && q.first() == Some(&('[' as u32))) { r.count("any_class_probe_renamed_inside_an_array_name"); }
+	if answers.len() == asks.len() { r.case(&format!("any-class-{stream}"), format!("CAnyClass {} {} {} {}", g_jar(&j), g_table(&w.t), glist(asks.iter().map(|a| gstr(a))), glist(answers.iter().map(|a| gstr(a))))); }
+}
+
+/// a class entry whose name does not end in `.class`: remap_jar_entry_name leaves the name alone; the class
+/// inside is still nested / remapped
+fn through_odd_entry(r: &mut Report) {
+	let t = vec![mk_nest(INNER, "B", "A", None, "B", 1)];
+	let input = vec![("x/Alpha.klass".to_string(), InEntry::Class(build(&mk_class("A", &[])))), ("B.class".to_string(), InEntry::Class(build(&mk_class("B", &[]))))];
+	match impl_nest_jar_raw(true, input, to_nests(&t)) {
+		Ok(Some(out)) => {
+			let names: Vec<&str> = out.iter().map(|(n, _)| n.as_str()).collect();
+			let inside = |n: &str| out.iter().find_map(|(name, e)| match e { OutEntry::Class(b) if name == n => raw::parse(b).and_then(|rc| facts_from_raw(&rc)).ok().map(|f| f.name.to_string_lossy()), _ => None });
+			if names != ["x/Alpha.klass", "A$B.class"] || inside("x/Alpha.klass").as_deref() != Some("A") || inside("A$B.class").as_deref() != Some("A$B") {
+				let what = format!("jar with a class entry not named <class>.class: expected entries x/Alpha.klass (class A) and A$B.class (class A$B), got {:?} with classes {:?} {:?}", names, inside("x/Alpha.klass"), inside("A$B.class"));
+				r.violation(what.clone(), format!("property C14\nwhat: {what}\ninput entries: x/Alpha.klass = class A, B.class = class B; table: B in A, inner name B\n"));
+			}
+			r.count("jar_class_entry_not_named_dot_class");
+		}
+		other => { let what = format!("nest_jar failed on a jar with a class entry not named <class>.class: {:?}", other.map(|o| o.is_some())); r.violation(what.clone(), format!("property C14\nwhat: {what}\n")); }
+	}
+}
+
+/// MyRemapper::new alone (undo on an empty mapping set): Ok exactly on the acyclic tables — compared with the
+/// LITERAL depth-counter transcription of the model (CLiteral)
+fn through_literal(r: &mut Report, w: &World, nests: &Nests<NA>, stream: &str) -> anyhow::Result<()> {
+	let empty = MMappings { ns: vec![cps_str("official"), cps_str("named")], doc: None, classes: vec![] };
+	match impl_undo(&empty, nests)? {
+		Err(p) => { let what = format!("undo_nests_to_mappings panicked on an empty mapping set: {p}"); r.violation(what.clone(), replay_text(&what, w, "")); }
+		Ok(got) => {
+			let ok = got.is_some();
+			if ok != acyclic(&w.t) {
+				let what = format!("building the translation of the table (MyRemapper::new) {} although the table is {}", if ok { "succeeded" } else { "failed" }, if ok { "cyclic" } else { "acyclic (the depth bound must never fire on an acyclic table, whatever its size and order)" });
+				r.violation(what.clone(), replay_text(&what, w, ""));
+			}
+			r.count(if ok { "translation_ok(acyclic)" } else { "translation_err(cyclic: depth bound fired)" });
+			if !w.big { r.case(stream, format!("CLiteral {} {}", g_table(&w.t), gbool(ok))); }
+		}
+	}
+	Ok(())
+}
+
 pub fn run(ctx: &Ctx) -> anyhow::Result<Report> {
 	if let Some(k) = ctx.replay.as_ref().and_then(|p| p.to_str()).and_then(|p| p.strip_prefix("cycle-probe-")).and_then(|k| k.parse::<usize>().ok()) {
 		std::process::exit(if probe(k) { 0 } else { 3 });
@@ -774,7 +960,7 @@ pub fn run(ctx: &Ctx) -> anyhow::Result<Report> {
 	let mut r = Report::new("C14", "C14.Run");
 	let mut rng = Rng::new(ctx.seed);
 	r.shard_size = 200;
-	r.rule = "worlds = (mapping set with 2 namespaces, nests table, jar) over a universe of 2..8 source classes (packages, `$`-nested names, unicode, numeric characters that are not ASCII digits): chains of depth 1..5, inner/local/anonymous nests with derived and custom inner names, inner names and C_<n> target names with Arabic-Indic / fullwidth / superscript / circled / Roman numerals, nests for classes that are in no mapping or no jar, target names in Calamus form C_<n> and already nested Encl__Inner; tables are shuffled and in one world of four listed inner-most first (every nest before the nest of its enclosing class); one world of three reaches the implementation through the TEXT reader (Nests::read of the table's text) and the kinds it assigns are compared with an independent ASCII-only classification; every world goes through remap_nests, apply_nests_to_mappings, undo_nests_to_mappings (on the applied and on the original mappings) and nest_jar and is judged by the independent reference; separate streams violate one hypothesis each: classes without target name, a translation that is not injective, malformed descriptors / inner names / target names, CYCLIC tables and acyclic tables with a cyclic image (Err expected, compared with the model's Err); fixed worlds in every run: chains listed inner-most first, the cyclic-image witness, the order-dependent creation of a listed class, non-ASCII numerics through the reader; rich jars (corpus classes and gen_class output: signatures, annotations, local variable tables, stack map frames, catch types, invokedynamic, method handles/types, NestHost/NestMembers/PermittedSubclasses/Record, multianewarray, pre-existing EnclosingMethod) are nested and every reference position of every output class is compared with the specification of reference positions (C07's spec_remap) applied to the input; the nests text format is round-tripped through Nests::read together with malformed lines. A world is non-trivial when apply renamed at least one class; distinct by (table, mappings).".into();
+	r.rule = "worlds = (mapping set with 2 namespaces, nests table, jar) over a universe of 2..8 source classes (packages, `$`-nested names, unicode, numeric characters that are not ASCII digits): chains of depth 1..5, inner/local/anonymous nests with derived and custom inner names, inner names and C_<n> target names with Arabic-Indic / fullwidth / superscript / circled / Roman numerals, nests for classes that are in no mapping or no jar, target names in Calamus form C_<n> and already nested Encl__Inner; tables are shuffled and in one world of four listed inner-most first (every nest before the nest of its enclosing class); one world of three reaches the implementation through the TEXT reader (Nests::read of the table's text) and the kinds it assigns are compared with an independent ASCII-only classification; every world goes through remap_nests, apply_nests_to_mappings, undo_nests_to_mappings (on the applied and on the original mappings) and nest_jar and is judged by the independent reference; separate streams violate one hypothesis each: classes without target name, a translation that is not injective, malformed descriptors / inner names / target names, CYCLIC tables and acyclic tables with a cyclic image (Err expected, compared with the model's Err); fixed worlds in every run: chains listed inner-most first, the cyclic-image witness, the order-dependent creation of a listed class, non-ASCII numerics through the reader; rich jars (corpus classes and gen_class output: signatures, annotations, local variable tables, stack map frames, catch types, invokedynamic, method handles/types, NestHost/NestMembers/PermittedSubclasses/Record, multianewarray, pre-existing EnclosingMethod) are nested and every reference position of every output class is compared with the specification of reference positions (C07's spec_remap) applied to the input; the nests text format is round-tripped through Nests::read together with malformed lines (wrong field counts, empty class / enclosing class / inner name, invalid names, access flags out of range). Round 4: every world is written down (crumb) before it is handed to the implementation; MyRemapper::new alone (undo on an empty mapping set) is compared with the literal depth-counter transcription (CLiteral); single chains whose depth equals the table size (1..48 with correspondence, 300 with jar and 1500 oracle-only) in three table orders, each also closed into a cycle; the anonymous rule on 44 boundary inner names (0, 00, 01, +1, -1, -0, +, -, 2^31-1, 2^31, 2^32-1, 2^32, leading zeros, empty, white space, `_`, other scripts' digits) and on random numbers around the i32/u32 boundaries, each through nest_jar in both modes (CAnon); enclosing methods without a mapping (`<init>`, `<clinit>`, lambda bodies, accessors) whose descriptors mention mapped classes; target names that are names of listed classes (undo's `$` -> `__`); a probe class casts to object names, array names of 1 and 3 dimensions, primitive arrays and unlisted classes and the operands are read back after nest_jar(remap) (CAnyClass); a class entry not named <class>.class. A world is non-trivial when apply renamed at least one class; distinct by (table, mappings).".into();
 
 	let survived = cycle_probe(&mut r, ctx);
 
@@ -789,10 +975,13 @@ pub fn run(ctx: &Ctx) -> anyhow::Result<Report> {
 		};
 		let flavor = w.flavor;
 		if flavor == Flavor::Cyclic && !survived { r.count("cyclic_world_not_run(the probe died)"); continue; }
+		crumb(&world_crumb(&w, stream, ""));
 		let nests = world_nests(&mut r, &w, stream);
+		through_literal(&mut r, &w, &nests, stream)?;
 		let nontrivial = through_world(&mut r, &w, &nests, stream)?;
-		if i < n_fixed { through_jar(&mut r, &w, &nests, true, stream); through_jar(&mut r, &w, &nests, false, stream); }
+		if i < n_fixed { through_jar(&mut r, &w, &nests, true, stream); through_jar(&mut r, &w, &nests, false, stream); through_any_class(&mut r, &w, &nests, stream); }
 		else if i % 2 == 0 || flavor == Flavor::Valid || flavor == Flavor::Cyclic { through_jar(&mut r, &w, &nests, i % 4 != 3, stream); }
+		if i >= n_fixed && i % 4 == 0 && flavor != Flavor::Weird { through_any_class(&mut r, &w, &nests, stream); }
 		r.eval(&format!("{}|{}", g_table(&w.t), g_mappings(&w.m)), nontrivial);
 		// text form
 		if i % 3 == 0 {
@@ -812,11 +1001,52 @@ pub fn run(ctx: &Ctx) -> anyhow::Result<Report> {
 			through_read(&mut r, &bad, "read-malformed", None);
 		}
 	}
+	// ---- chains whose depth is exactly the size of the table (the depth test must not fire), closed into a cycle (it must)
+	if survived {
+		let sizes: &[usize] = if ctx.thorough { &[1, 2, 3, 4, 5, 8, 13, 21, 34, 48] } else { &[1, 2, 3, 5, 8, 21, 48] };
+		let mut k = 0u8;
+		for &n in sizes { for cycle in [false, true] { k = k.wrapping_add(1); for order in 0..3u8 {
+			if !ctx.thorough && order != k % 3 { continue; }
+			let w = chain_world(&mut rng, n, cycle, order, true);
+			let label = format!(", one chain of {n} nests{}, order {order}", if cycle { " closed into a cycle" } else { "" });
+			crumb(&world_crumb(&w, "chain", &label));
+			let nests = to_nests(&w.t);
+			through_literal(&mut r, &w, &nests, "chain")?;
+			through_world(&mut r, &w, &nests, "chain")?;
+			through_jar(&mut r, &w, &nests, true, "chain");
+			if n <= 5 { through_any_class(&mut r, &w, &nests, "chain"); }
+			r.count(if cycle { "chain_world_cyclic" } else { "chain_world_depth_equals_table_size" });
+		} } }
+		// long chains: judged by the oracle only (no correspondence case); the recursion of the implementation is as deep as the chain
+		for (n, cycle, with_jar) in [(1500usize, false, false), (1500, true, false), (300, false, true), (300, true, true)] {
+			let w = chain_world(&mut rng, n, cycle, if with_jar { 1 } else { 2 }, with_jar);
+			let label = format!(", one chain of {n} nests{}", if cycle { " closed into a cycle" } else { "" });
+			crumb(&world_crumb(&w, "long-chain", &label));
+			let nests = to_nests(&w.t);
+			through_literal(&mut r, &w, &nests, "long-chain")?;
+			through_world(&mut r, &w, &nests, "long-chain")?;
+			if with_jar { through_jar(&mut r, &w, &nests, true, "long-chain"); }
+			r.count(&format!("long_chain_world_{n}{}", if cycle { "_cyclic" } else { "" }));
+		}
+	}
+	// ---- the anonymous rule on boundary strings, and on numbers around the i32 boundaries
+	for inner in ANON_INNER { through_anon(&mut r, &cps_str(inner)); }
+	for k in 0..(if ctx.thorough { 300 } else { 40 }) {
+		let base: i64 = *rng.pick(&[0i64, 1, 9, 10, 2147483647, 2147483648, 4294967295, 4294967296, 1000000000, 999999999][..]);
+		let v = (base + rng.below(5) as i64 - 2).max(0);
+		let mut txt = String::new();
+		if k % 5 == 0 { txt.push('+'); } else if k % 11 == 0 { txt.push('-'); }
+		for _ in 0..rng.below(4) { txt.push('0'); }
+		txt.push_str(&v.to_string());
+		if k % 13 == 0 { txt.push(*rng.pick(&['x', ' ', '_', '٣', '１'][..])); }
+		through_anon(&mut r, &cps_str(&txt));
+	}
+	through_odd_entry(&mut r);
 	for inner in ["Foo", "123Foo", "1", "1234", "123Bar4", "0", "00x", "x1", "1$2", "９x", "12ü", "7_", "1٣", "٣D", "1２x"] { through_strip(&mut r, inner); }
 	// rich classes: every reference position
 	rich::run_rich(&mut r, &mut rng, if ctx.thorough { 500 } else { 48 });
 	// fixed texts
-	for s in ["", "\n", "A\tB\t\t\tC\t1", "A\tB\t\t\tC\t1\n\n", "A\tB\t\t\tC\t1\r", "A\tB\t\t\tC\t1\r\n", "A\tB\t\t\tC\t1\r\r\n", "\r\n", "\r", "A\tB\t\t\tC\t1\nX\tB\t\t\t2\t2\r", "A\tB\tm\t()V\t1C\t0x0019\r\nA$1\tA\tm\t\t1\t0b1\r\n", "A\tB\t\t()V\t12\t+7", "A\tB\tm\tnot a descriptor\tC\t0", "a/b/C\ta/b/D\t<init>\t(La/b/C;)V\t1\t0", "[A\tB\t\t\tC\t0", "A\tB\t\t\tC\t٣",
+	for s in ["", "\n", "A\tB\t\t\tC\t1", "A\tB\t\t\tC\t1\n\n", "A\tB\t\t\tC\t1\r", "A\tB\t\t\tC\t1\r\n", "A\tB\t\t\tC\t1\r\r\n", "\r\n", "\r", "A\tB\t\t\tC\t1\nX\tB\t\t\t2\t2\r", "A\tB\tm\t()V\t1C\t0x0019\r\nA$1\tA\tm\t\t1\t0b1\r\n", "A\tB\t\t()V\t12\t+7", "A\tB\tm\tnot a descriptor\tC\t0", "a/b/C\ta/b/D\t<init>\t(La/b/C;)V\t1\t0", "[A\tB\t\t\tC\t0", "A\tB\t\t\tC\t٣", "A\t\t\t\tC\t0", "A\tB\t\t\t\t0", "\tB\t\t\tC\t0", "A\tB\t\t\t+1\t0", "A\tB\t\t\t00\t0", "A\tB\t\t\t2147483648\t0", "A\tB\t\t\t-1\t0",
 		"c\ta\t\t\t٤٢\t1", "d\ta\tm\t()V\t1٣\t0", "e\ta\t\t\t٣D\t0", "f\ta\t\t\t１２\t0", "g\ta\t\t\t²\t0", "h\ta\tm\t()V\t7Ⅷ\t0"] {
 		through_read(&mut r, &cps_str(s), "read-fixed", None);
 	}
